@@ -32,9 +32,10 @@ type fakeConn struct {
 	closed bool
 	sent   int
 	// batch mode: datagrams waiting for the next ReadBatch calls
-	bq    []dgram
-	bwake chan struct{}
-	calls []int // number of datagrams returned by each ReadBatch call
+	bq      []dgram
+	bwake   chan struct{}
+	calls   []int // number of datagrams returned by each ReadBatch call
+	onClose func()
 }
 
 // Read, Write and RemoteAddr exist only because ipv4.NewPacketConn asserts net.Conn.
@@ -99,6 +100,9 @@ func (f *fakeConn) Close() error {
 	defer f.mu.Unlock()
 	if f.closed {
 		return net.ErrClosed
+	}
+	if f.onClose != nil {
+		f.onClose()
 	}
 	f.closed = true
 	close(f.in)
@@ -386,12 +390,25 @@ func TestHarness(t *testing.T) {
 			t.Fatal(err)
 		}
 		for _, h := range hs {
+			if len(h.Conf) >= 2 && h.Conf[0] == "9" {
+				seed := common.AtoU64(h.Conf[1])
+				synctest.Test(t, func(*testing.T) { runListenerConc(h, seed) })
+				w.Put(h)
+				continue
+			}
 			synctest.Test(t, func(*testing.T) { runHistory(h, nil) })
 			w.Put(h)
 		}
 	} else {
 		rng := common.Rng(a.Seed, 0x11)
 		for i := 0; i < a.N; i++ {
+			if a.Mode == "conc" {
+				h := &common.History{}
+				seed := rng.Uint64()
+				synctest.Test(t, func(*testing.T) { runListenerConc(h, seed) })
+				w.Put(h)
+				continue
+			}
 			h := &common.History{Conf: []string{common.I([]int{1, 2, 3, 128}[rng.IntN(4)]), common.I([]int{0, 0, 1, 2}[rng.IntN(4)]),
 				common.I(rng.IntN(3)), common.I([]int{0, 0, 2, 3, 8}[rng.IntN(5)])}}
 			synctest.Test(t, func(*testing.T) { runHistory(h, rng) })
